@@ -61,6 +61,22 @@ PROPS["C09"] = {
     "assumptions": ["size <= usize::MAX for the receiver (C01)"],
 }
 
+PROPS["C12"] = {
+    "module": "Matreex.Props.C12", "harness": "C12",
+    "technique": "Lean 4 theorems about the regenerated conformability predicate and the same-order/cross-order data paths (cross-order get_unchecked in bounds via the remap lemma) + T1 tables of the named methods and operator delegation + correspondence with symbolic token terms",
+    "trusted": ["iter().zip / enumerate / collect modelled as positionwise maps; get_unchecked as UB outside the vector",
+                "closures are effect-free functions in the theorems (exactly-once is the shape of the map; the harness counts real calls)",
+                "translate/t1.py elementwise_forms: regex extraction of method bodies and operator impl bodies"],
+    "assumptions": ["Coh and size <= usize::MAX for both operands (C01)"],
+}
+PROPS["C18"] = {
+    "module": "Matreex.Props.C18", "harness": "C18",
+    "technique": "table theorems (decide) over the scalar-operator impl table re-extracted from the macro sources on every run (T1), Lean theorems for the generic scalar_operation family, and execution of every one of the 1260 impls against the primitive operators",
+    "trusted": ["translate/t1.py scalar_forms / neg_forms: regex extraction of macro arms, closure bodies normalised to `role op role` (derefs and clones erased), invocation lists",
+                "primitive arithmetic is not re-modelled in Lean: the harness evaluates both orientations with the primitive operator and compares bitwise"],
+    "assumptions": [],
+}
+
 LEVEL_TEXT = ("Machine-checked Lean 4 theorems, for all inputs the property quantifies over, about a model whose integer core is "
               "regenerated from /repo/src on every run and whose remaining structure is tied to the implementation by a differential "
               "correspondence run (same operation lines on crate and model) plus the property's own oracle on the implementation.")
